@@ -215,8 +215,13 @@ func (c *Ctx) c18UV(rows, cols int, radius float64) {
 		build: func() modeling.Mesh { return primitives.UVSphere(radius, rows, cols) }})
 	c.c18Emit(c18Case{kind: "sphereu", params: p, scalars: sc, size: radius, admit: admit, withPos: true, solid: true,
 		build: func() modeling.Mesh { return primitives.UVSphereUnwelded(radius, rows, cols) }})
+	// Hemisphere.UV never reads the Capped field (the cap fan is always emitted): both settings must give the model's mesh
+	capped := (rows+cols)%2 == 0
+	if !capped {
+		c.Note("hemi.capped-false")
+	}
 	c.c18Emit(c18Case{kind: "hemi", params: p, scalars: sc, size: radius, admit: admit, withPos: true, solid: true,
-		build: func() modeling.Mesh { return primitives.Hemisphere{Radius: radius, Capped: true}.UV(rows, cols) }})
+		build: func() modeling.Mesh { return primitives.Hemisphere{Radius: radius, Capped: capped}.UV(rows, cols) }})
 }
 
 func c18CylUVs() *primitives.CylinderUVs {
